@@ -74,6 +74,17 @@ def guarded_stores(ctx):
     set_exception stores are control dependent on not done() (or override); done() is
     exactly membership in the terminal constants; the user-level set_exception raises
     unless done() before overriding; override=True has no other caller."""
+    # done() itself: one read of the status, tested for membership in the terminal constants.  A done() assembled from several
+    # fields (status == 'success' or an exception is stored, ...) is not atomic against the writers, which update those fields one
+    # after the other under the lock: a lock-free reader can see done() go back to False while a result replaces an exception
+    df = ctx.func(f'{COORD}.done')
+    drets = [n for n in own_nodes(df.node) if isinstance(n, ast.Return)]
+    shape = len(drets) == 1 and isinstance(drets[0].value, ast.Compare) and len(drets[0].value.ops) == 1 and isinstance(drets[0].value.ops[0], ast.In) \
+        and norm(drets[0].value.left) in ('self.status', 'self._status')
+    ctx.ob(df, 'done() is one membership test on the status', shape,
+           f'found {[norm(r.value) for r in drets]}: done() must be decided by the single status field (once True it can only stay True because no terminal status is ever left)')
+    if not shape:
+        return
     terminal, ret = terminal_set(ctx)
     f_done = ctx.func(f'{COORD}.done')
     ctx.ob(f_done, ret, terminal == {'failed', 'cancelled', 'success'},
@@ -122,7 +133,7 @@ def guarded_stores(ctx):
             ctx.ob(cf, c, True, 'no override')
 
 
-@rule('C17.c', ['C17'], floor=3)
+@rule('C17.c', ['C17', 'C05', 'C03'], floor=3)
 def status_and_exception_move_together(ctx):
     """Every block that stores a terminal status also stores _exception in the same
     lock region: an exception object for failed/cancelled, None for success."""
